@@ -11,7 +11,23 @@ client/reader events in the orchestrator) and validated with TLC against
 spec/ClusterTrace.tla, which infers the commit points and evaluates the
 property predicates of spec/ClusterProps.tla on every recorded state.
 
+Membership changes are part of both sides: Cluster.tla has the configuration
+(`members`), Join / Part / CommitCfg / Retire, elections under a pending
+configuration and InstallSnapshot for nodes whose entries were compacted out of
+the leader's raft log; the orchestrator starts nodes late with -join (after
+traffic and after compacting snapshots, so that they get their state by raft
+InstallSnapshot over robustirc's HTTP transport - verified in the joiner's own
+hook trace), removes nodes with POST /part as robustirc-removepeer does, deletes
+their data and lets them join again; the leader's /status configuration after
+every request is recorded and ClusterTrace.tla explains it. Besides the stream
+predicates, the serialised state (/status/state) of all members is compared
+whenever everything is applied everywhere (StatesEqual: a snapshot install must
+not change the replicated state).
+
 A verdict only ever comes from the recorded behaviour of the real binaries.
+
+Environment: VERIF_C05_PORT_BASE=<port> makes the nodes listen on fixed ports
+(8 per schedule, upwards from <port>) instead of ports handed out by the kernel.
 """
 import concurrent.futures
 import json
@@ -54,6 +70,14 @@ def build(ctx):
     if text.count(old) != 1:
         raise vlib.Inconclusive("robustirc.go: the single-peer restart test is not where the rig expects it")
     text = text.replace(old, 'if len(addrs) == 1 && addrs[0] == *peerAddr && os.Getenv("VERIF_ALLOW_SINGLE_RESTART") == "" {')
+    # raft.Config.TrailingLogs (default 10240: the raft log is never compacted in a short
+    # run, so a late joiner would replay the log and InstallSnapshot would never happen).
+    # The membership schedules set it through the environment; without the variable the
+    # Sscan fails and the default stays. Nothing else of the raft setup is touched.
+    old = 'config.MaxAppendEntries = 1024'
+    if text.count(old) != 1:
+        raise vlib.Inconclusive("robustirc.go: the raft configuration is not where the rig expects it")
+    text = text.replace(old, old + '\n\tfmt.Sscan(os.Getenv("VERIF_TRAILING_LOGS"), &config.TrailingLogs)')
     ov = ctx.overlay({"robustirc.go": text})
     bindir = ctx.sub("bin")
     robust = ctx.go_build(".", os.path.join(bindir, "robustirc"), overlay=ov, tags="verif", timeout=600)
@@ -77,10 +101,23 @@ def from_behaviour(hist, name, seed, nclients):
     orchestrator binds them to real nodes (model leader -> real leader)."""
     steps = setup_steps(nclients)
     outstanding = {}      # client -> True while the model has a request outstanding
+    initial = 3
     for i, h in enumerate(hist):
         a = h["a"]
         if a == "Init":
-            steps.append({"op": "bindleader", "n": h["n"]})
+            members = h.get("members") or []
+            if members and len(members) < 3:
+                initial = len(members)
+                steps.append({"op": "bindmembers", "n": h["n"], "members": members})
+            else:
+                steps.append({"op": "bindleader", "n": h["n"]})
+        elif a == "Join":
+            # a fresh process with -join=<some member>; the request is proxied to the leader
+            steps.append({"op": "rejoin", "n": h["n"], "via": "member", "ms": 15000})
+        elif a == "Part":
+            steps.append({"op": "part", "n": h["n"], "via": "member"})
+        elif a == "Retire":
+            steps.append({"op": "retire", "n": h["n"]})
         elif a in ("Post", "Retry"):
             c = h["c"]
             # will the node die at the ack gate while this request is outstanding?
@@ -125,7 +162,11 @@ def from_behaviour(hist, name, seed, nclients):
         elif a == "LeaderChange":
             steps.append({"op": "leaderchange", "n": h["n"], "forced": bool(h.get("forced"))})
         steps.append({"op": "sleep", "ms": 40})
-    return {"name": name, "nodes": 3, "clients": nclients, "seed": seed, "steps": steps, "origin": "tlc"}
+    sch = {"name": name, "nodes": 3, "clients": nclients, "seed": seed, "steps": steps, "origin": "tlc"}
+    if initial < 3 or any(h["a"] in ("Join", "Part") for h in hist):
+        # behaviours of Cluster_simmember.cfg: snapshots compact the raft log (the model's Trailing = 0)
+        sch.update({"initial": initial, "trailing_logs": 1, "origin": "tlc-membership"})
+    return sch
 
 
 def single_gate_schedule(seed):
@@ -347,6 +388,196 @@ def f7_schedule(seed):
     return {"name": "f7-%d" % seed, "nodes": 3, "clients": 3, "seed": seed, "steps": steps, "origin": "f7"}
 
 
+# ------------------------------------------------------------------ membership schedules
+
+def latejoin_schedule(seed, fold=False):
+    """Two nodes carry the traffic; the leader takes a snapshot that really compacts its
+    raft log (TrailingLogs 1); a third node joins LATE, through a follower (the request
+    is proxied to the leader), while clients keep posting: it gets its state by raft
+    InstallSnapshot over the HTTP transport (verified in the node's own hook trace) and
+    the tail by log replication. With fold=True the snapshot also folds the old entries
+    into the serialised server state (FSM.Snapshot compaction), so the joiner's state
+    comes out of IRCServer.Unmarshal. A client whose acknowledgement got lost then
+    retries a post every node has to recognise - the joiner from restored state only.
+    Then an initial member is removed (POST /part through the joiner): the quorum is
+    now {old member, late joiner}; the leader dies between apply and acknowledgement;
+    finally every member is killed and restarted (the joiner from the snapshot it was
+    sent)."""
+    rnd = random.Random(seed * 7349 + (17 if fold else 3))
+    steps = setup_steps(3)
+    steps += [{"op": "bg", "count": 2}, {"op": "barrier"}]
+    if fold:
+        steps += [{"op": "foldpoint"},
+                  {"op": "post", "c": 2, "n": "leader"}, {"op": "await", "c": 2}]
+    steps += [{"op": "snapshot", "n": "leader"}, {"op": "sleep", "ms": 700},
+              {"op": "post", "c": 2, "n": "random"}, {"op": "post", "c": 3, "n": "random"},
+              {"op": "await", "c": 2}, {"op": "await", "c": 3}]
+    if fold:
+        # clients 2 and 3 go on while the node joins; client 1 stays silent: its last post
+        # exists only inside the folded state
+        steps += [{"op": "post", "c": 2, "n": "random"},
+                  {"op": "join", "via": "follower", "expect": "snapshot"},
+                  {"op": "await", "c": 2},
+                  {"op": "post", "c": 3, "n": "random"}, {"op": "await", "c": 3}]
+    else:
+        steps += [{"op": "bg", "count": 3},
+                  {"op": "sleep", "ms": rnd.randrange(200)},
+                  {"op": "join", "via": "follower", "expect": "snapshot"},
+                  {"op": "barrier"},
+                  {"op": "waitdelivered", "c": 1}]
+    steps += [{"op": "repost", "c": 1},
+              {"op": "checkstates"},
+              # the joiner's own next snapshot builds on the state it was sent
+              {"op": "snapshot", "n": "joined"}, {"op": "sleep", "ms": 500},
+              {"op": "bind", "n": 9, "to": "follower"},
+              {"op": "part", "n": 9, "via": "follower2"},
+              {"op": "post", "c": 3, "n": "random"}, {"op": "await", "c": 3},
+              {"op": "arm", "n": "leader", "point": "api.applied", "filterc": 2, "cmid": "next"},
+              {"op": "post", "c": 2, "n": "leader"},
+              {"op": "killgate", "n": "leader", "point": "api.applied"},
+              {"op": "sleep", "ms": rnd.randrange(600)},
+              {"op": "restart", "n": "randomdown"},
+              {"op": "barrier"},
+              {"op": "post", "c": 3, "n": "random"}, {"op": "await", "c": 3},
+              {"op": "kill", "n": 1}, {"op": "kill", "n": 2}, {"op": "kill", "n": 3}]
+    sch = {"name": "latejoin%s-%d" % ("-fold" if fold else "", seed), "nodes": 3, "initial": 2, "clients": 3, "seed": seed,
+           "trailing_logs": 1, "steps": steps, "origin": "membership", "expect_snapshot_installs": 1}
+    if fold:
+        sch["fold_after_ms"] = 14000
+    return sch
+
+
+def grow_schedule(seed, volume=False):
+    """A network that starts with ONE node grows to three under traffic, both joiners
+    after a compacting snapshot (InstallSnapshot); then the original node - the only one
+    that applied every entry itself - is killed between apply and acknowledgement and
+    removed: what was acknowledged by a quorum of one must be served by the two late
+    joiners."""
+    rnd = random.Random(seed * 4409 + 1)
+    steps = setup_steps(3)
+    # volume: more than 100 entries before the first snapshot (FSM.Restore writes them in
+    # batches of 100); slow because the server throttles a session that posts quickly
+    steps += [{"op": "bg", "count": 34 if volume else 2}, {"op": "barrier", "ms": 120000},
+              {"op": "snapshot", "n": 1}, {"op": "sleep", "ms": 600},
+              {"op": "bg", "count": 4},
+              {"op": "sleep", "ms": rnd.randrange(300)},
+              {"op": "join", "via": 1, "expect": "snapshot"},
+              {"op": "barrier"},
+              {"op": "snapshot", "n": "leader"}, {"op": "sleep", "ms": 600},
+              {"op": "bg", "count": 3},
+              {"op": "join", "via": "follower", "expect": "snapshot"},
+              {"op": "barrier"},
+              {"op": "waitdelivered", "c": 1},
+              {"op": "repost", "c": 1},
+              {"op": "checkstates"},
+              {"op": "snapshot", "n": "joined"}, {"op": "sleep", "ms": 500},
+              {"op": "arm", "n": 1, "point": "api.applied", "filterc": 2, "cmid": "next"},
+              {"op": "post", "c": 2, "n": 1},
+              {"op": "post", "c": 3, "n": "follower"},
+              {"op": "killgate", "n": 1, "point": "api.applied", "ms": 3000},
+              {"op": "disarmall"},
+              {"op": "waitleader"},
+              {"op": "part", "n": 1, "via": "leader"},
+              {"op": "bg", "count": 2}, {"op": "barrier"},
+              {"op": "snapshot", "n": "leader"}, {"op": "sleep", "ms": 400},
+              {"op": "kill", "n": 2}, {"op": "kill", "n": 3}]
+    return {"name": "grow%s-%d" % ("-volume" if volume else "", seed), "nodes": 3, "initial": 1, "clients": 3, "seed": seed, "trailing_logs": 1,
+            "steps": steps, "origin": "membership", "expect_snapshot_installs": 2}
+
+
+def shrinkgrow_schedule(seed):
+    """Three members; the LEADER is removed under traffic (it leads until the change is
+    committed, then raft shuts down and the process terminates itself); the two others
+    carry on, snapshot and compact; the removed node's data is deleted and it joins
+    again (InstallSnapshot); a follower is paused across a compacting snapshot so that
+    a RUNNING node is sent the snapshot as well (FSM.Restore replaces live state)."""
+    rnd = random.Random(seed * 2741 + 9)
+    steps = setup_steps(3)
+    steps += [{"op": "bg", "count": 2}, {"op": "barrier"},
+              {"op": "bg", "count": 5},
+              {"op": "sleep", "ms": 100 + rnd.randrange(300)},
+              {"op": "bind", "n": 9, "to": "leader"},
+              {"op": "part", "n": 9, "via": "follower"},
+              {"op": "waitleader"},
+              {"op": "barrier"},
+              {"op": "snapshot", "n": "leader"}, {"op": "sleep", "ms": 600},
+              {"op": "bg", "count": 3},
+              {"op": "rejoin", "n": 9, "via": "follower", "expect": "snapshot"},
+              {"op": "checkstates"},
+              # a live follower falls behind a compacting snapshot (the clients talk to the
+              # leader meanwhile: a request parked at the paused node beyond the client's
+              # timeout is the stale-retry shape, reproduced on purpose by stale_retry_schedule)
+              {"op": "bind", "n": 8, "to": "follower"},
+              {"op": "pause", "n": 8},
+              {"op": "post", "c": 1, "n": "leader"}, {"op": "post", "c": 2, "n": "leader"},
+              {"op": "await", "c": 1}, {"op": "await", "c": 2},
+              {"op": "post", "c": 3, "n": "leader"}, {"op": "post", "c": 2, "n": "leader"},
+              {"op": "await", "c": 3}, {"op": "await", "c": 2},
+              {"op": "snapshot", "n": "leader"}, {"op": "sleep", "ms": 700},
+              {"op": "post", "c": 1, "n": "leader"}, {"op": "await", "c": 1},
+              {"op": "resumeall"},
+              {"op": "bg", "count": 2}, {"op": "barrier"},
+              {"op": "checkstates"},
+              {"op": "kill", "n": "leader"}]
+    return {"name": "shrinkgrow-%d" % seed, "nodes": 3, "clients": 3, "seed": seed, "trailing_logs": 1, "steps": steps,
+            "origin": "membership", "expect_snapshot_installs": 1}
+
+
+def stale_retry_schedule(seed):
+    """Third shape of the double application (same root cause as F7/F7b), on purpose: a
+    request is parked at a node that is stalled for longer than the client's timeout;
+    the client retries elsewhere (same ClientMessageId), is acknowledged and posts newer
+    messages; the stalled node wakes up and handles the stale request: the duplicate
+    test only knows the session's LAST ClientMessageId, so the old message is committed
+    and delivered a second time, behind the newer ones."""
+    steps = setup_steps(3)
+    steps += [{"op": "bg", "count": 1}, {"op": "barrier"},
+              {"op": "bind", "n": 8, "to": "follower"},
+              # a kept-alive connection to that node, so that the next request reaches its socket
+              {"op": "post", "c": 1, "n": 8}, {"op": "await", "c": 1},
+              {"op": "pause", "n": 8},
+              {"op": "post", "c": 1, "n": 8},                      # times out after 4 s, retried elsewhere
+              {"op": "await", "c": 1, "ms": 20000},
+              {"op": "post", "c": 1, "n": "leader"}, {"op": "await", "c": 1},
+              {"op": "post", "c": 1, "n": "leader"}, {"op": "await", "c": 1},
+              {"op": "resumeall"},
+              {"op": "sleep", "ms": 1500},
+              {"op": "barrier"},
+              {"op": "bg", "count": 1}, {"op": "barrier"}]
+    return {"name": "stale-retry-%d" % seed, "nodes": 3, "clients": 3, "seed": seed, "steps": steps, "origin": "f7c"}
+
+
+def member_random_schedule(seed, rounds=5):
+    """Seeded random mix of joins, parts, re-joins, kills, pauses and compacting
+    snapshots under continuous traffic."""
+    rnd = random.Random(seed * 32452843 + 5)
+    initial = rnd.choice([1, 2, 3])
+    steps = setup_steps(3)
+    steps.append({"op": "bg", "count": 3 * rounds})
+    for r in range(rounds):
+        steps.append({"op": "sleep", "ms": 300 + rnd.randrange(1000)})
+        kind = rnd.choice(["join", "join", "part", "partleader", "rejoin", "snapshot", "snapshot", "killleader", "killfollower", "pausefollower"])
+        if kind == "join":
+            steps += [{"op": "join", "via": rnd.choice(["leader", "follower", "member"])}]
+        elif kind == "part":
+            steps += [{"op": "part", "n": "follower", "via": rnd.choice(["leader", "follower", "member"])}]
+        elif kind == "partleader":
+            steps += [{"op": "part", "n": "leader", "via": rnd.choice(["leader", "follower"])}, {"op": "waitleader", "ms": 20000}]
+        elif kind == "rejoin":
+            steps += [{"op": "rejoin", "n": "removed", "via": "member"}]
+        elif kind == "snapshot":
+            steps += [{"op": "snapshot", "n": rnd.choice(["leader", "random"])}]
+        elif kind == "killleader":
+            steps += [{"op": "kill", "n": "leader"}, {"op": "sleep", "ms": rnd.randrange(2000)}, {"op": "restart", "n": "randomdown"}]
+        elif kind == "killfollower":
+            steps += [{"op": "kill", "n": "follower"}, {"op": "sleep", "ms": rnd.randrange(1200)}, {"op": "restart", "n": "randomdown"}]
+        else:
+            steps += [{"op": "pause", "n": "follower"}, {"op": "sleep", "ms": 400 + rnd.randrange(1500)},
+                      {"op": "snapshot", "n": "leader"}, {"op": "sleep", "ms": 500}, {"op": "resumeall"}]
+    return {"name": "member-random-%d" % seed, "nodes": 3, "initial": initial, "clients": 3, "seed": seed, "trailing_logs": 1,
+            "steps": steps, "origin": "membership-random"}
+
+
 # ------------------------------------------------------------------ running
 
 def run_schedule(ctx, bins, sched, deadline=240):
@@ -357,8 +588,15 @@ def run_schedule(ctx, bins, sched, deadline=240):
         json.dump(sched, fh)
     out = os.path.join(d, "out")
     work = os.path.join(d, "work")
-    rc, txt, to = vlib.run([orch, "-bin", robust, "-work", work, "-out", out, "-schedule", sp,
-                            "-deadline", str(deadline)], env=vlib._env(), timeout=deadline + 60)
+    cmd = [orch, "-bin", robust, "-work", work, "-out", out, "-schedule", sp, "-deadline", str(deadline)]
+    base = os.environ.get("VERIF_C05_PORT_BASE")
+    if base:
+        # fixed ports instead of ports handed out by the kernel: 8 per schedule, in the order
+        # the schedules are started (for running several instances of the check side by side)
+        with _LOCK:
+            slot = run_schedule.slot = getattr(run_schedule, "slot", -1) + 1
+        cmd += ["-portbase", str(int(base) + 8 * slot)]
+    rc, txt, to = vlib.run(cmd, env=vlib._env(), timeout=deadline + 60)
     res = {}
     try:
         with open(os.path.join(out, "result.json")) as fh:
@@ -389,6 +627,39 @@ def hash_data(data):
     return zlib.crc32(norm_data(data).encode("utf-8", "replace")) & 0x3FFFFFFF
 
 
+def norm_state(text):
+    """The text form of IRCServer.Marshal() as /status/state serves it, made canonical:
+    Marshal walks Go maps (sessions, channels, ...), so the ORDER of repeated blocks
+    differs from node to node and from call to call; blocks are therefore sorted at every
+    level (the comparison is order-insensitive). One field is left out because it is
+    node-local by design: throttling_exponent is changed by the POST handler of the node
+    that happens to serve a client, not by FSM.Apply."""
+    lines = [l.strip() for l in text.splitlines() if l.strip()]
+    pos = [0]
+
+    def block():
+        items = []
+        while pos[0] < len(lines):
+            l = lines[pos[0]]
+            pos[0] += 1
+            if l == ">":
+                break
+            if l.endswith("<"):
+                items.append(l + " " + block() + " >")
+            elif not l.startswith("throttling_exponent:"):
+                items.append(l)
+        return " ".join(sorted(items))
+
+    out = []
+    while pos[0] < len(lines):
+        out.append(block())
+    return "\n".join(x for x in out if x)
+
+
+def hash_state(text):
+    return 1 + (zlib.crc32(norm_state(text).encode("utf-8", "replace")) & 0x3FFFFFFF)
+
+
 class History:
     """The recorded streams of one run, converted for ClusterTrace.tla."""
 
@@ -409,7 +680,10 @@ class History:
                 self.firstline = max(self.firstline, e["cmid"] + 1)
         self.nodes = 0
         self.streams = {}         # (n, k) -> stream number
+        self.state_text = {}      # (round, node) -> normalised serialised state
         for e in self.orch:
+            if e["ev"] == "state":
+                self.state_text[(e.get("round", 1), e["n"])] = norm_state(e["text"])
             if e["ev"] == "schedule":
                 self.nodes = e["nodes"]
             if e["ev"] == "start":
@@ -467,12 +741,21 @@ class History:
             elif ev == "final":
                 msgs = [{"idx": m["idx"], "reply": m["reply"], "c": m["from"], "cmid": m["cmid"], "h": hash_data(m["data"])}
                         for m in (e["msgs"] or [])]
-                res.append({"st": 1, "ev": "final", "n": e["n"], "s": e["s"], "msgs": msgs, "seq": e["seq"]})
+                res.append({"st": 1, "ev": "final", "n": e["n"], "s": e["s"], "msgs": msgs, "stale": bool(e.get("stale")), "seq": e["seq"]})
+            elif ev == "cfgreq":
+                res.append({"st": 1, "ev": "cfgreq", "kind": e["kind"], "n": e["n"], "seq": e["seq"]})
+            elif ev == "cfg":
+                res.append({"st": 1, "ev": "cfg", "kind": e["kind"], "n": e["n"], "peers": e.get("peers") or [],
+                            "ok": bool(e.get("ok")), "leader": e.get("leader", 0), "seq": e["seq"]})
+            elif ev == "state":
+                res.append({"st": 1, "ev": "state", "n": e["n"], "h": hash_state(e["text"]), "round": e.get("round", 1), "seq": e["seq"]})
+            elif ev == "end" and e.get("status") == "ok":
+                res.append({"st": 1, "ev": "done", "seq": e["seq"]})
         return res
 
     def trace_text(self, mutate=None):
         recs = [{"st": 1, "ev": "meta", "streams": 1 + len(self.streams), "nodes": self.nodes,
-                 "sessions": max(1, len(self.sessions)), "firstline": self.firstline}]
+                 "sessions": max(1, len(self.sessions)), "firstline": self.firstline, "members": [1]}]
         recs += self.events
         for st in sorted(self.node_events):
             recs += self.node_events[st]
@@ -550,9 +833,37 @@ class History:
                               "no evidence that it had applied the first copy when the retry arrived" % (
                                   first, " (proposed by node %d incarnation %d)" % p1 if p1 else "", second, p2[0], p2[1]))
 
+    def state_difference(self):
+        """Which parts of the serialised state differ between two members (first round that differs)."""
+        rounds = sorted({k[0] for k in self.state_text})
+        for rd in rounds:
+            nodes = sorted(n for (r_, n) in self.state_text if r_ == rd)
+            for a in nodes:
+                for b in nodes:
+                    ta, tb = self.state_text[(rd, a)], self.state_text[(rd, b)]
+                    if a < b and ta != tb:
+                        wa, wb = set(re.split(r" (?=[a-z_]+: )", ta)), set(re.split(r" (?=[a-z_]+: )", tb))
+                        only_a = sorted(wa - wb)[:6]
+                        only_b = sorted(wb - wa)[:6]
+                        return "reading %d: node %d has %s; node %d has %s" % (rd, a, [x[:60] for x in only_a], b, [x[:60] for x in only_b])
+        return ""
+
+    def live_restores(self):
+        """FSM.Restore on a node that had applied entries in the same incarnation: an
+        InstallSnapshot that replaced live state (not the restore at start-up)."""
+        n = 0
+        for evs in self.node_events.values():
+            seen_apply = False
+            for e in evs:
+                if e["ev"] == "apply":
+                    seen_apply = True
+                elif e["ev"] == "restored" and seen_apply:
+                    n += 1
+        return n
+
     def summary(self):
         log = self.committed()
-        return {"committed_commands": len(log), "acked": len(self.acked()),
+        return {"committed_commands": len(log), "acked": len(self.acked()), "live_snapshot_installs": self.live_restores(),
                 "node_incarnations": len(self.streams),
                 "events": len(self.events) + sum(len(v) for v in self.node_events.values())}
 
@@ -572,6 +883,8 @@ INVARIANT_SIGNATURE = {
     "FinalInSenderOrder": "final-stream-out-of-sender-order",
     "FinalsEqual": "final-streams-differ-between-nodes",
     "ResumedIsPrefixOfFinal": "resumed-stream-is-not-a-prefix-of-the-final-stream",
+    "StaleIsPrefix": "removed-node-serves-a-stream-that-is-not-a-prefix",
+    "StatesEqual": "replicated-state-differs-between-members",
 }
 # invariants through which a double application in the committed sequence shows
 DUP_CONSEQUENCES = ("AckedExactlyOnce", "DeliveredInSenderOrder", "FinalComplete", "FinalInSenderOrder")
@@ -605,6 +918,7 @@ def judge(ctx, res, hist, r, replay):
                 try:
                     st = json.loads(m.group(1).replace('\\"', '"'))
                     ctx.add("resume_redeliveries_c04_shape", st.get("redeliv", 0))
+                    r.cfgchanges = st.get("cfgchanges", 0)
                 except Exception:
                     pass
         return "ok"
@@ -621,6 +935,8 @@ def judge(ctx, res, hist, r, replay):
             what = ("acknowledged post applied (and delivered) twice: %s; %s [%s; schedule %s]" % (
                 ", ".join("client %d ClientMessageId %d at indices %s" % (k[0], k[1], v) for k, v in sorted(dups.items())),
                 shapes[0][1], inv, name))
+        if inv == "StatesEqual":
+            what += ": " + hist.state_difference()
         replay = dict(replay)
         replay.update({"invariant": inv, "tlc_last_state": tail_state(r), "history": hist.summary()})
         new = ctx.violation(sig, what, replay)
@@ -635,9 +951,14 @@ def judge(ctx, res, hist, r, replay):
 
 def run_and_validate(ctx, bins, sched, deadline=240):
     res = run_schedule(ctx, bins, sched, deadline)
-    out = {"name": sched["name"], "status": res.get("status"), "why": res.get("why"), "wall_s": res.get("wall_s")}
+    out = {"name": sched["name"], "status": res.get("status"), "why": res.get("why"), "wall_s": res.get("wall_s"),
+           "snapshot_installs": res.get("snapshot_installs", 0)}
     if res.get("unexpected_exits"):
         out["unexpected_exits"] = res["unexpected_exits"]
+    if res.get("unmet") and out["status"] == "ok":
+        # the run is still validated, but it did not exercise what it was written for
+        out["status"] = "unmet"
+        out["why"] = "; ".join(res["unmet"])
     hist = None
     try:
         hist = History(res["out"])
@@ -751,32 +1072,122 @@ def selftest(ctx, hist):
     return out
 
 
+def selftest_membership(ctx, hist):
+    """The membership part of the binding binds: on an accepted history with a late
+    joiner, a changed state, configuration, snapshot position or joiner stream must be
+    rejected."""
+    out = {"accepted_unchanged": True}
+
+    def corrupt_state(recs):
+        # one member's serialised state differs at quiescence
+        res, done = [], False
+        for r in recs:
+            if not done and r.get("ev") == "state":
+                r = dict(r, h=r["h"] % 1000000 + 7)
+                done = True
+            res.append(r)
+        return res
+
+    def corrupt_cfg(recs):
+        # the leader reports a configuration without the node that has just joined
+        res, done = [], False
+        for r in reversed(recs):
+            if not done and r.get("ev") == "cfg" and r.get("kind") == "join" and r.get("ok") and len(r["peers"]) > 2:
+                r = dict(r, peers=[p for p in r["peers"] if p != r["n"]])
+                done = True
+            res.append(r)
+        return list(reversed(res))
+
+    def snapshot_short(recs):
+        # the snapshot a joiner was sent ends one entry earlier than what it goes on with
+        joiners = {r["st2"] for r in recs if r.get("ev") == "start" and r.get("k") == 1 and r.get("n", 1) != 1}
+        res, done = [], False
+        for r in recs:
+            if not done and r.get("ev") == "restored" and r["st"] in joiners and r["last"] > 3:
+                r = dict(r, last=r["last"] - 2)
+                done = True
+            res.append(r)
+        return res
+
+    def joiner_stream(recs):
+        # the node that joined last serves a final stream without one numbered line
+        last = max((r["n"] for r in recs if r.get("ev") == "cfg" and r.get("kind") == "join" and r.get("ok")), default=0)
+        res, done = [], False
+        for r in recs:
+            if not done and r.get("ev") == "final" and r.get("n") == last and not r.get("stale"):
+                msgs = list(r["msgs"])
+                for i, m in enumerate(msgs):
+                    if m["c"] != 0:
+                        del msgs[i]
+                        done = True
+                        break
+                r = dict(r, msgs=msgs)
+            res.append(r)
+        return res
+
+    muts = (("corrupt_state", corrupt_state), ("corrupt_configuration", corrupt_cfg),
+            ("snapshot_too_short", snapshot_short), ("joiner_stream_incomplete", joiner_stream))
+    if ctx.quick and not ctx.selftest:
+        muts = muts[:2]
+    base, _ = hist.trace_text()
+    with concurrent.futures.ThreadPoolExecutor(max_workers=4) as ex:
+        futs = {}
+        for nm, fn in muts:
+            if hist.trace_text(fn)[0] == base:
+                out[nm] = "not applicable to this history"
+                continue
+            futs[nm] = ex.submit(tlc_validate, ctx, hist, "mself-" + nm, "ClusterTrace.cfg", fn)
+        for nm, fut in futs.items():
+            r = fut.result()
+            rejected = (not r.ok) and bool(r.invariant_violated or r.deadlock)
+            out[nm] = {"rejected": rejected, "by": r.invariant_violated or ("deadlock" if r.deadlock else None)}
+    out["binds"] = all(v["rejected"] for k, v in out.items() if isinstance(v, dict))
+    return out
+
+
 # ------------------------------------------------------------------ design spec
 
-def zero_actions(out):
-    """Actions of Cluster.tla never taken in a -coverage run (vacuity)."""
-    res = []
+MEMBERSHIP_ACTIONS = {"Join", "Part", "CommitCfg", "InstallSnapshot", "Retire", "ElectAny"}
+
+
+def action_counts(out):
+    """action -> number of states it generated in a -coverage run of Cluster.tla (vacuity)."""
+    res = {}
     for m in re.finditer(r"^<(\w+) line \d+, col \d+ to line \d+, col \d+ of module Cluster>: (\d+):(\d+)", out, re.M):
-        if int(m.group(3)) == 0:
-            res.append(m.group(1))
-    return sorted(set(res))
+        if m.group(1) != "Init":
+            res[m.group(1)] = res.get(m.group(1), 0) + int(m.group(3))
+    return res
 
 
 def design_spec(ctx):
     workers = 4 if ctx.quick else 8
-    runs = [("Cluster_small.cfg", 300)]
+    # Cluster_membercov.cfg: the membership actions (Join, Part, CommitCfg, InstallSnapshot,
+    # Retire, Elect with a pending configuration) with every invariant, with -coverage
+    runs = [("Cluster_small.cfg", 300), ("Cluster_membercov.cfg", 300)]
     if not ctx.quick:
-        runs += [("Cluster_small2.cfg", 300), ("Cluster_cov.cfg", 600), ("Cluster_pauses.cfg", 900), ("Cluster_lc.cfg", 1200), ("Cluster_posts.cfg", 1200), ("Cluster_kills.cfg", 1500)]
+        runs += [("Cluster_small2.cfg", 300), ("Cluster_cov.cfg", 600), ("Cluster_member.cfg", 600), ("Cluster_pauses.cfg", 900),
+                 ("Cluster_member3.cfg", 1200), ("Cluster_lc.cfg", 1200), ("Cluster_posts.cfg", 1200), ("Cluster_member2.cfg", 1500),
+                 ("Cluster_kills.cfg", 1500)]
+    covered = {}
     for cfg, to in runs:
-        r = ctx.tlc_must_pass("Cluster", cfg=cfg, workers=workers, timeout=to, coverage=(cfg == "Cluster_cov.cfg"), name="mc-" + cfg[:-4])
+        cov = cfg in ("Cluster_cov.cfg", "Cluster_membercov.cfg")
+        r = ctx.tlc_must_pass("Cluster", cfg=cfg, workers=workers, timeout=to, coverage=cov, name="mc-" + cfg[:-4])
         add(ctx, "states", r.distinct)
         add(ctx, "transitions", r.generated)
         add(ctx, "tlc_runs")
+        ctx.cov.setdefault("model_states_by_cfg", {})[cfg] = r.distinct
         ctx.log("TLC %s: %d distinct states, %d generated, depth %d" % (cfg, r.distinct, r.generated, r.depth))
-        if cfg == "Cluster_cov.cfg":
-            ctx.cov["coverage_zero_actions"] = zero_actions(r.out)
-            if ctx.cov["coverage_zero_actions"]:
-                ctx.note("vacuity: actions never taken in Cluster_cov.cfg: %s" % ctx.cov["coverage_zero_actions"])
+        if cov:
+            for name, n in action_counts(r.out).items():
+                covered[name] = covered.get(name, 0) + n
+    if covered:
+        # vacuity: over the coverage runs of this tier together, every action was taken
+        need = MEMBERSHIP_ACTIONS if ctx.quick else set(covered)
+        zero = sorted(a for a in need if covered.get(a, 0) == 0)
+        ctx.cov["coverage_zero_actions"] = zero
+        ctx.cov["membership_actions_taken"] = {a: covered.get(a, 0) for a in sorted(MEMBERSHIP_ACTIONS)}
+        if zero:
+            ctx.note("vacuity: actions never taken in the coverage runs: %s" % zero)
     # as the code behaves: both shapes of the double application must be reachable in the model
     for cfg in ("Cluster_f7.cfg", "Cluster_f7b.cfg"):
         r = ctx.tlc("Cluster", cfg=cfg, workers=2, timeout=300, name="mc-" + cfg[:-4])
@@ -789,13 +1200,17 @@ def design_spec(ctx):
         add(ctx, "transitions", r.generated)
 
 
-def tlc_schedules(ctx, count, nclients=3):
+FAULTS = ("Kill", "Pause", "LeaderChange", "Snapshot", "Timeout")
+MEMBERSHIP = ("Join", "Part", "Retire")
+
+
+def tlc_schedules(ctx, count, nclients=3, cfg="Cluster_sim.cfg", tag="tlc", per=400):
     """Behaviours of Cluster.tla (simulation, history variable) as fault schedules."""
-    r = ctx.tlc("Cluster", cfg="Cluster_sim.cfg", workers=2, simulate="num=%d" % (40 if ctx.quick else count * 400), depth=120,
-                timeout=180, name="sim", deadlock=False)
+    r = ctx.tlc("Cluster", cfg=cfg, workers=2, simulate="num=%d" % (40 if ctx.quick else count * per), depth=140 if tag != "tlc" else 120,
+                timeout=180, name="sim-" + tag, deadlock=False)
     add(ctx, "tlc_runs")
     if not r.ok:
-        raise vlib.Inconclusive("simulation of Cluster_sim.cfg failed: %s\n%s" % (r.invariant_violated, "\n".join(r.out.splitlines()[-30:])))
+        raise vlib.Inconclusive("simulation of %s failed: %s\n%s" % (cfg, r.invariant_violated, "\n".join(r.out.splitlines()[-30:])))
     behaviours = []
     seen = set()
     for line in r.out.splitlines():
@@ -808,18 +1223,20 @@ def tlc_schedules(ctx, count, nclients=3):
             hist = json.loads(m.group(1).replace('\\"', '"'))
         except Exception:
             continue
-        key = json.dumps([{k: v for k, v in h.items() if k != "cmid"} for h in hist if h["a"] in ("Kill", "Restart", "Pause", "Resume", "LeaderChange", "Snapshot", "Timeout")], sort_keys=True)
+        key = json.dumps([{k: v for k, v in h.items() if k != "cmid"} for h in hist
+                          if h["a"] in FAULTS + MEMBERSHIP + ("Restart", "Resume")], sort_keys=True)
         if key in seen:
             continue
         seen.add(key)
         behaviours.append(hist)
-    ctx.cov["tlc_behaviours_generated"] = len(behaviours)
-    # prefer behaviours with many faults, deterministic for a seed
+    ctx.cov["tlc_behaviours_generated"] = ctx.cov.get("tlc_behaviours_generated", 0) + len(behaviours)
+    ctx.cov.setdefault("tlc_behaviours_by_cfg", {})[cfg] = len(behaviours)
+    # prefer behaviours with many faults (and membership changes), deterministic for a seed
     rnd = random.Random(ctx.seed)
     rnd.shuffle(behaviours)
-    behaviours.sort(key=lambda h: -sum(1 for x in h if x["a"] in ("Kill", "Pause", "LeaderChange", "Snapshot", "Timeout")))
+    behaviours.sort(key=lambda h: -sum((2 if x["a"] in ("Join", "Part") else 1) for x in h if x["a"] in FAULTS + ("Join", "Part")))
     picked = behaviours[:count]
-    return [from_behaviour(h, "tlc-%d-%d" % (ctx.seed, i + 1), ctx.seed * 1000 + i, nclients) for i, h in enumerate(picked)], picked
+    return [from_behaviour(h, "%s-%d-%d" % (tag, ctx.seed, i + 1), ctx.seed * 1000 + i, nclients) for i, h in enumerate(picked)], picked
 
 
 # ------------------------------------------------------------------ main
@@ -831,6 +1248,10 @@ def run(ctx):
         "single-node rig: robustirc.go's 'Only known peer is myself' start-up test is made conditional (overlay, one line) because the unchanged main() refuses to restart a one-node network",
         "the text of RPL_CREATED (003) is excluded from stream equality (per-process start time; replica determinism is C01)",
         "re-delivery of x.1..x.r after resuming at x.r on a node that applies x later is C04's subject (F6) and only counted here",
+        "membership schedules: raft.Config.TrailingLogs is set from the environment (overlay, one line in main(); default 10240 would never compact the raft log in a short run, so InstallSnapshot would never happen); hashicorp/raft's handling of configuration changes is trusted like the rest of raft",
+        "the configuration of the network is read from the leader's machine-readable /status (what robustirc-removepeer reads); a configuration the recorded requests do not explain is DRIFT, not a violation",
+        "serialised states (/status/state = IRCServer.Marshal) are compared order-insensitively (Marshal walks Go maps) and without throttling_exponent (node-local: changed by the serving node's POST handler, not by FSM.Apply)",
+        "a removed node that still runs refuses GetMessages once its last raft contact is too old; when it does answer, its stream must be a prefix",
     ]
     bins = build(ctx)
     ctx.log("built robustirc (tags verif) and the orchestrator")
@@ -851,16 +1272,20 @@ def run(ctx):
     seed = ctx.seed
     if ctx.quick:
         scheds = [single_gate_schedule(seed), fold_schedule(seed, 1), three_mixed_schedule(seed, safeguard=True), f7_schedule(seed),
-                  partition_schedule(seed), isolated_leader_schedule(seed)]
-        ntlc, par = 1, 7
+                  partition_schedule(seed), isolated_leader_schedule(seed),
+                  latejoin_schedule(seed, fold=(seed % 2 == 0)), grow_schedule(seed)]
+        ntlc, nmem, par = 1, 1, 10
     else:
         scheds = [single_gate_schedule(seed), single_gate_schedule(seed + 1)]
         scheds += [single_random_schedule(seed + i) for i in range(3)]
         scheds += [three_mixed_schedule(seed, safeguard=True), three_mixed_schedule(seed + 1)]
-        scheds += [f7_schedule(seed), fold_schedule(seed, 1), fold_schedule(seed + 1, 1), fold_schedule(seed, 3)]
+        scheds += [f7_schedule(seed), stale_retry_schedule(seed), fold_schedule(seed, 1), fold_schedule(seed + 1, 1), fold_schedule(seed, 3)]
         scheds += [partition_schedule(seed), partition_schedule(seed + 1), isolated_leader_schedule(seed), isolated_leader_schedule(seed + 1)]
         scheds += [three_random_schedule(seed * 100 + i) for i in range(10)]
-        ntlc, par = 12, 4
+        scheds += [latejoin_schedule(seed), latejoin_schedule(seed, fold=True), latejoin_schedule(seed + 1), latejoin_schedule(seed + 1, fold=True),
+                   grow_schedule(seed, volume=True), grow_schedule(seed + 1), shrinkgrow_schedule(seed), shrinkgrow_schedule(seed + 1)]
+        scheds += [member_random_schedule(seed * 100 + i) for i in range(8)]
+        ntlc, nmem, par = 12, 8, 5
 
     results = []
     deadline = 240 if ctx.quick else 300
@@ -868,9 +1293,14 @@ def run(ctx):
         futs = [ex.submit(run_and_validate, ctx, bins, s, deadline) for s in scheds]
         # meanwhile: behaviours of the design spec as further schedules
         tl, picked = tlc_schedules(ctx, ntlc)
-        ctx.log("TLC simulation: %d distinct fault behaviours, %d taken as schedules" % (ctx.cov["tlc_behaviours_generated"], len(tl)))
         scheds += tl
         futs += [ex.submit(run_and_validate, ctx, bins, s, deadline) for s in tl]
+        tm, pickedm = tlc_schedules(ctx, nmem, cfg="Cluster_simmember.cfg", tag="tlcm", per=300)
+        scheds += tm
+        futs += [ex.submit(run_and_validate, ctx, bins, s, deadline) for s in tm]
+        picked = picked[:1] + pickedm[:1]
+        ctx.log("TLC simulation: %d distinct fault behaviours, %d + %d (with membership changes) taken as schedules" % (
+            ctx.cov["tlc_behaviours_generated"], len(tl), len(tm)))
         for fut in concurrent.futures.as_completed(futs):
             results.append(fut.result())
     for h in picked[:2]:
@@ -884,6 +1314,7 @@ def run(ctx):
     explored = 0
     inconclusive = []
     selftest_done = False
+    mselftest_done = False
     selftest_failed = None
     f7_seen = False
     results.sort(key=lambda x: x[0]["name"])
@@ -926,6 +1357,18 @@ def run(ctx):
             ctx.log("binding self-test: %s" % json.dumps(st))
             if not st["binds"]:
                 selftest_failed = json.dumps(st)
+        if verdict in ("ok", "known"):
+            ctx.add("snapshot_installs_verified", out.get("snapshot_installs") or 0)
+            ctx.add("snapshot_installs_on_running_nodes", hist.live_restores())
+            ctx.add("membership_changes_validated", getattr(r, "cfgchanges", 0))
+        late = any(e["ev"] == "cfg" and e["kind"] == "join" and e["ok"] and len(e["peers"]) > 2 for e in hist.events)
+        if verdict == "ok" and complete and late and not mselftest_done and res["sched"].get("origin") == "membership":
+            st = selftest_membership(ctx, hist)
+            ctx.cov["binding_selftest_membership"] = st
+            mselftest_done = True
+            ctx.log("binding self-test (membership): %s" % json.dumps(st))
+            if not st["binds"]:
+                selftest_failed = json.dumps(st)
         if len(ctx.cov["samples"]) < 5 and verdict in ("ok", "known"):
             ctx.sample({"schedule": name, "summary": hist.summary(),
                         "excerpt": [e for e in hist.events if e["ev"] in ("post", "ack", "killed", "start")][:12]})
@@ -939,6 +1382,9 @@ def run(ctx):
         raise vlib.Inconclusive("binding self-test failed: %s" % selftest_failed)
     if ctx.selftest and not selftest_done:
         raise vlib.Inconclusive("no accepted trace to run the self-test on")
+    if not ctx.cov.get("snapshot_installs_verified") or not mselftest_done:
+        raise vlib.Inconclusive("the membership part was not exercised: no late joiner got its state by InstallSnapshot in an accepted run (%s)" % (
+            "; ".join(inconclusive)[:1200]))
     need = max(2, (len(scheds) * 2) // 3)
     if explored < need and not ctx.violations:
         raise vlib.Inconclusive("only %d of %d schedules ran to quiescence: %s" % (explored, len(scheds), "; ".join(inconclusive)[:1500]))
